@@ -85,6 +85,7 @@ std::vector<size_t> truncPoints(const std::string& bytes, const Plan& p, size_t 
 	return all;
 }
 
+void initMeshes();
 void init() {
 	Plan p = plan();
 	for (auto& s : realSamples()) g_files.push_back({"real:" + s.name, s.bytes, {}});
@@ -119,9 +120,140 @@ void init() {
 		e.points = truncPoints(e.bytes, p, budget, mix(g_cfg.seed, fi), real ? (g_cfg.tier ? 4000 : 260) : api ? 60 : 12);
 		for (size_t k = 0; k < e.points.size(); k += CHUNK) g_cases.push_back({fi, k});
 	}
+	initMeshes();
+}
+
+// ---- external mesh files (Starfield): the separate loader NifFile::LoadExternalShapeData reads them into a mesh slot of a BSGeometry
+struct MeshFile { std::string name; std::string bytes; bool skinned; };
+std::vector<MeshFile> g_meshes;
+std::string g_sfModel;                                              // a real sample with BSGeometry shapes
+std::vector<std::array<size_t, 3>> g_meshCases;                     // (mesh file, history, first prefix length)
+
+std::string buildMesh(Rng& rng, bool skinned) {
+	std::string o;
+	auto u32 = [&](uint32_t v) { o.append((const char*)&v, 4); };
+	auto u16 = [&](uint16_t v) { o.append((const char*)&v, 2); };
+	auto f32 = [&](float v) { o.append((const char*)&v, 4); };
+	uint32_t nv = 3 + rng.below(6), nt = 1 + rng.below(4);
+	u32(1 + rng.below(2));
+	u32(nt * 3);
+	for (uint32_t t = 0; t < nt * 3; t++) u16((uint16_t)rng.below(nv));
+	f32(rng.range(0.5f, 4.0f));
+	uint32_t wpv = skinned ? (rng.coin() ? 4u : 8u) : 0u;
+	u32(wpv);
+	u32(nv);
+	for (uint32_t v = 0; v < nv * 3; v++) u16((uint16_t)rng.below(65536));
+	u32(nv);
+	for (uint32_t v = 0; v < nv * 2; v++) u16((uint16_t)(0x3800 + rng.below(0x400)));
+	uint32_t nuv2 = rng.coin(3) ? nv : 0;
+	u32(nuv2);
+	for (uint32_t v = 0; v < nuv2 * 2; v++) u16((uint16_t)(0x3800 + rng.below(0x400)));
+	uint32_t nc = rng.coin() ? nv : 0;
+	u32(nc);
+	for (uint32_t v = 0; v < nc; v++) u32(rng.below(0xFFFFFFFFu));
+	u32(nv);
+	for (uint32_t v = 0; v < nv; v++) u32(rng.below(0xFFFFFFFFu));
+	u32(nv);
+	for (uint32_t v = 0; v < nv; v++) u32(rng.below(0xFFFFFFFFu));
+	u32(nv * wpv);
+	for (uint32_t v = 0; v < nv * wpv; v++) { u16((uint16_t)rng.below(4)); u16((uint16_t)rng.below(65536)); }
+	uint32_t nl = rng.below(3);
+	u32(nl);
+	for (uint32_t l = 0; l < nl; l++) { uint32_t k = 1 + rng.below(2); u32(k * 3); for (uint32_t t = 0; t < k * 3; t++) u16((uint16_t)rng.below(nv)); }
+	uint32_t nm = rng.below(3);
+	u32(nm);
+	for (uint32_t m = 0; m < nm; m++) { u32(nv); u32(0); u32(nt); u32(0); }
+	uint32_t ncd = rng.below(3);
+	u32(ncd);
+	for (uint32_t m = 0; m < ncd * 6; m++) f32(rng.range(-5, 5));
+	return o;
+}
+
+void initMeshes() {
+	for (auto& s : realSamples()) {
+		NifFile n;
+		if (loadNif(n, s.bytes) != 0) continue;
+		for (auto sh : n.GetShapes())
+			if (auto g = dynamic_cast<BSGeometry*>(sh))
+				if (g->MeshCount() > 0 && g_sfModel.empty()) g_sfModel = s.bytes;
+	}
+	if (g_sfModel.empty()) return;
+	int nFiles = g_cfg.tier ? 24 : 4;
+	for (int i = 0; i < nFiles; i++) {
+		Rng rng(mix(g_cfg.seed, 0xC16E00 + (uint64_t)i));
+		bool sk = i % 2 == 0;
+		g_meshes.push_back({fmt("mesh:%s:%d", sk ? "skinned" : "unskinned", i), buildMesh(rng, sk), sk});
+	}
+	for (size_t m = 0; m < g_meshes.size(); m++)
+		for (size_t h = 0; h < 3; h++)
+			for (size_t first = 0; first <= g_meshes[m].bytes.size(); first += CHUNK) g_meshCases.push_back({m, h, first});
+}
+
+// one prefix of a mesh file: history 0 = into the slot as loaded from the NIF, 1 / 2 = over a complete skinned / unskinned mesh loaded before
+void meshPrefix(const MeshFile& mf, size_t hist, size_t len) {
+	std::string what = fmt("%s truncated to %zu of %zu bytes, loaded %s", mf.name.c_str(), len, mf.bytes.size(), hist == 0 ? "into a fresh mesh slot" : hist == 1 ? "over a complete skinned mesh" : "over a complete unskinned mesh");
+	R_caseDesc(what);
+	R_eval();
+	std::string phase = "load-model";
+	try {
+		R_phase("load-model");
+		auto n = std::make_unique<NifFile>();
+		if (loadNif(*n, g_sfModel) != 0) return;
+		BSGeometry* g = nullptr;
+		for (auto sh : n->GetShapes())
+			if (auto x = dynamic_cast<BSGeometry*>(sh))
+				if (x->MeshCount() > 0 && !g) g = x;
+		if (!g) return;
+		if (hist != 0) {
+			phase = "load-first-mesh"; R_phase(phase.c_str());
+			const MeshFile* first = nullptr;
+			for (auto& o : g_meshes) if (o.skinned == (hist == 1) && &o != &mf) { first = &o; break; }
+			if (!first) return;
+			std::istringstream is(first->bytes, std::ios::binary);
+			n->LoadExternalShapeData(g, is, 0);
+		}
+		phase = "load-mesh-prefix"; R_phase(phase.c_str());
+		{
+			std::istringstream is(mf.bytes.substr(0, len), std::ios::binary);
+			n->LoadExternalShapeData(g, is, 0);
+		}
+		phase = "query"; R_phase("query");
+		g->SelectMesh(0);
+		runBattery(*n, true);
+		{
+			std::vector<Triangle> t;
+			g->GetTriangles(t);
+			std::vector<Vector3> v;
+			n->GetVertsForShape(g, v);
+			std::vector<Vector2> uv;
+			n->GetUvsForShape(g, uv);
+			n->GetNormalsForShape(g);
+			g->UpdateBounds();
+		}
+		g->ReleaseMesh();
+		phase = "copy"; R_phase("copy");
+		auto cp = std::make_unique<NifFile>(*n);
+		phase = "save"; R_phase("save");
+		saveNif(*cp, true);
+		saveNif(*n, false);
+		phase = "destroy"; R_phase("destroy");
+		cp.reset();
+		n.reset();
+		R_stat("mesh_prefixes_loaded");
+		if (len == mf.bytes.size()) R_cover(what);
+	}
+	catch (const std::exception& e) {
+		R_viol("exception", phase + "/" + demangle(typeid(e).name()), what + ": escaping exception in phase " + phase + ": " + e.what());
+	}
 }
 
 void run(size_t idx) {
+	if (idx >= g_cases.size()) {
+		auto [m, h, first] = g_meshCases[idx - g_cases.size()];
+		const MeshFile& mf = g_meshes[m];
+		for (size_t len = first; len < first + CHUNK && len <= mf.bytes.size(); len++) meshPrefix(mf, h, len);
+		return;
+	}
 	auto [fi, first] = g_cases[idx];
 	const Entry& e = g_files[fi];
 	size_t last = std::min(e.points.size(), first + CHUNK);
@@ -141,7 +273,7 @@ void run(size_t idx) {
 MonReg reg({"C16", "fault_enumeration",
 			"fault = the file ends after k bytes. Files: all real samples (every byte offset, stride 13 in the quick tier, for files <= 16 KB; for larger files every block boundary +-1, "
 			"header table boundaries, a seeded sample of typed-field boundaries reported by the read hook and an even stride), one synthesised file per block type (x14 versions thorough), "
-			"API-built skinned/segmented models. Per fault, in a fork-isolated CPU-limited child: Load(prefix) -> ~60-query battery -> copy -> raw save -> default save -> reload -> destroy. "
+			"API-built skinned/segmented models; plus every prefix of small generated Starfield mesh files (skinned and unskinned) read by LoadExternalShapeData into a mesh slot of a real BSGeometry shape, as loaded from the NIF and over a complete skinned / unskinned mesh loaded before. Per fault, in a fork-isolated CPU-limited child: Load(prefix) -> ~60-query battery -> copy -> raw save -> default save -> reload -> destroy. "
 			"Oracle: no sanitizer/assertion abort, signal, escaping exception or CPU-limit hang in any phase (Load may return non-zero). Non-trivial = prefix that Load accepts with rc 0.",
-			[] { return g_cases.size(); }, run, 4, 60.0, true, false, init});
+			[] { return g_cases.size() + g_meshCases.size(); }, run, 4, 60.0, true, false, init});
 } // namespace
